@@ -28,6 +28,11 @@ type C06Params struct {
 	// been lost) so that the K records straddle Boundary x 2^16; BoundaryOff of them lie before it
 	Boundary    int `json:"boundary,omitempty"`
 	BoundaryOff int `json:"boundary_off,omitempty"`
+	// ZeroOpt: WithReplayProtectionWindow(0) is given explicitly; it means the default window (W = 64)
+	ZeroOpt bool `json:"zero_opt,omitempty"`
+	// Glue: every arriving datagram carries its record twice (record || record): the copy must be
+	// recognised although the first has only just been accepted
+	Glue bool `json:"glue,omitempty"`
 }
 
 var c06Windows = []int{1, 2, 3, 64}
@@ -83,6 +88,7 @@ func c06Gen(r *rand.Rand, tier string, idx int) any {
 		p.W = 1 + r.IntN(8)
 	case 1:
 		p.W = 64
+		p.ZeroOpt = r.IntN(2) == 0
 	default:
 		p.W = 1 + r.IntN(256)
 	}
@@ -91,6 +97,10 @@ func c06Gen(r *rand.Rand, tier string, idx int) any {
 		p.K = 100 + r.IntN(300)
 	}
 	p.Size = []int{0, 1, 16, 100, 1000}[r.IntN(5)]
+	p.Glue = r.IntN(4) == 0
+	if p.Glue && p.Size > 100 {
+		p.Size = 100
+	}
 	if c, _ := dataCfgByName(p.Cfg); c.C.MaxVer == 13 && r.IntN(2) == 0 {
 		p.Updates = 1 + r.IntN(6)
 	}
@@ -138,6 +148,10 @@ func c06Run(rc *RunCtx, params any) {
 	}
 	rc.R.Class = fmt.Sprintf("%s/W=%d", cfg.Name, p.W)
 	cfg.C.ReplayWindow, cfg.S.ReplayWindow = p.W, p.W
+	if p.ZeroOpt && p.W == 64 {
+		cfg.C.ReplayWindow, cfg.S.ReplayWindow = -1, -1
+		rc.R.Class += "/zero-option"
+	}
 	rc.Note("proto", protoTag(cfg.C, cfg.S))
 	n := NewSimNet(s, NetRules{})
 	pair, err := NewPair(s, n, cfg.C, cfg.S, nil)
@@ -218,7 +232,12 @@ func c06Run(rc *RunCtx, params any) {
 			continue
 		}
 		before := len(rd.Got)
-		n.InjectNow(pair.CAddr, pair.SAddr, append([]byte(nil), n.Captured[a].Data...))
+		dgram := append([]byte(nil), n.Captured[a].Data...)
+		if p.Glue {
+			dgram = append(dgram, n.Captured[a].Data...)
+			s.Fault("record-twice-in-one-datagram")
+		}
+		n.InjectNow(pair.CAddr, pair.SAddr, dgram)
 		s.Settle()
 		got := rd.Got[before:]
 		for _, g := range got {
